@@ -18,6 +18,8 @@ From J5V.model Require CodecDecCommute.
 From J5V.proofs Require CodecDecMsgSorted CodecDecReorder CodecDecLenient CodecDecOneofReorder CodecDecDenote CodecDecFull CodecDecSpace CodecDecFloatProofs CodecDecLeaf CodecDecExposedStored.
 From J5V.model Require CodecDecFloat CodecDecExposedCheck.
 From J5V.proofs Require CodecDecConverse CodecDecConversePerm.
+From J5V.lib Require JsonPrint.
+From J5V.proofs Require CodecDecSpaceAll CodecDecSpaceAll2 CodecDecSpaceDoc.
 Import ListNotations.
 Local Open Scope N_scope.
 
@@ -1056,4 +1058,71 @@ Proof.
     cbn [p_ty]. apply CodecDecConversePerm.V_scalar; [reflexivity | reflexivity | split; discriminate | vm_compute; reflexivity].
   - eapply CodecDecConversePerm.VM_member; [reflexivity | vm_compute; reflexivity | split; discriminate | | apply CodecDecConversePerm.VM_nil].
     cbn [p_ty]. apply CodecDecConversePerm.V_scalar; [reflexivity | reflexivity | split; discriminate | vm_compute; reflexivity].
+Qed.
+
+(* ------------------------------------------------------------------ white space at every token boundary at once
+   CodecDecSpaceAll2.sp J tx: tx is a print of the tree J (lib/JsonPrint.print: the compact spelling of every
+   token) with ARBITRARY white space (space, tab, CR, LF; any amount, possibly none) before every token, before
+   and behind every ',' and ':' — i.e. at every token boundary inside the value, all at once; w0 / w1 are white
+   space in front of and behind the document.  For every well-formed tree (valid numbers, valid UTF-8 strings):
+   the tokenizer reads the spaced text as exactly the tokens of the tree with nothing pending, which are the
+   tokens of the compact text, so the descent of decodeRoot returns the same outcome (same message or both
+   rejected) on both texts.  (CodecDecSpaceAll re-runs the induction of enc's CodecEncLex.v with a weaker side
+   condition — a printed value may be followed by white space; CodecDecSpaceAll2 is the spaced induction.)
+   LIMIT: for JSONToProto as a whole (descent + end-of-input check) the theorem needs the end-of-input
+   observation lex_at_eof of the two texts to agree; that observation is computed by lex_tail, a second
+   traversal, for which the spaced induction has not been repeated (both are true on every example). *)
+Theorem C03_whitespace_value_followed_by_space : forall J, CodecDecSpaceAll.P_lex J.
+Proof. exact CodecDecSpaceAll.lex_value. Qed.
+Print Assumptions C03_whitespace_value_followed_by_space.
+
+Theorem C03_whitespace_at_every_token_boundary_tokens : forall J tx w0 w1,
+  JsonPrint.wfb J = true -> CodecDecSpaceAll2.sp J tx -> CodecDecSpace.all_space w0 -> CodecDecSpace.all_space w1 ->
+  lex (w0 ++ tx ++ w1) = (tokens_of J, false).
+Proof. exact CodecDecSpaceAll2.lex_spaced. Qed.
+Print Assumptions C03_whitespace_at_every_token_boundary_tokens.
+
+Theorem C03_compact_print_is_a_spaced_print : forall J, CodecDecSpaceAll2.sp J (JsonPrint.print J).
+Proof. exact CodecDecSpaceAll2.sp_print. Qed.
+Print Assumptions C03_compact_print_is_a_spaced_print.
+
+Theorem C03_whitespace_at_every_token_boundary_same_descent : forall orc e root J tx w0 w1,
+  JsonPrint.wfb J = true -> CodecDecSpaceAll2.sp J tx -> CodecDecSpace.all_space w0 -> CodecDecSpace.all_space w1 ->
+  decode_bytes orc e root (w0 ++ tx ++ w1) = decode_bytes orc e root (JsonPrint.print J).
+Proof. exact CodecDecSpaceDoc.spaced_same_descent. Qed.
+Print Assumptions C03_whitespace_at_every_token_boundary_same_descent.
+
+Theorem C03_whitespace_at_every_token_boundary_same_document : forall orc e root J tx w0 w1,
+  JsonPrint.wfb J = true -> CodecDecSpaceAll2.sp J tx -> CodecDecSpace.all_space w0 -> CodecDecSpace.all_space w1 ->
+  lex_at_eof (w0 ++ tx ++ w1) = lex_at_eof (JsonPrint.print J) ->
+  decode_document orc e root (w0 ++ tx ++ w1) = decode_document orc e root (JsonPrint.print J).
+Proof. exact CodecDecSpaceDoc.spaced_same_document. Qed.
+Print Assumptions C03_whitespace_at_every_token_boundary_same_document.
+
+(* non-vacuity:  \n { "c" : { "i" :\t-7 } , "i" : 3 } \n  is a spaced print of {"c":{"i":-7},"i":3}; both end-of-input
+   observations are true and both texts decode to the same message *)
+Definition ws_tree : jvalue := JObj [([99], JObj [([105], JNum [45;55])]); ([105], JNum [51])].
+Definition ws_inner : bytes :=
+  [123] ++ ([32] ++ [] ++ JsonPrint.print_str [99] ++ [32] ++ 58 :: [32] ++
+            (123 :: ([32] ++ [] ++ JsonPrint.print_str [105] ++ [32] ++ 58 :: [9] ++ [45;55] ++ ([32] ++ [125]))) ++
+            ([32] ++ 44 :: [32] ++ JsonPrint.print_str [105] ++ [32] ++ 58 :: [32] ++ [51] ++ ([32] ++ [125]))).
+Example C03_example_whitespace_everywhere :
+  JsonPrint.wfb ws_tree = true /\ CodecDecSpaceAll2.sp ws_tree ws_inner /\
+  lex_at_eof ([10] ++ ws_inner ++ [32; 10]) = true /\ lex_at_eof (JsonPrint.print ws_tree) = true /\
+  decode_document no_oracles rs_env [78] ([10] ++ ws_inner ++ [32; 10]) = Ok [(5, VMsg [(6, VInt (-7))]); (6, VInt 3)] /\
+  decode_document no_oracles rs_env [78] (JsonPrint.print ws_tree) = Ok [(5, VMsg [(6, VInt (-7))]); (6, VInt 3)].
+Proof.
+  split; [vm_compute; reflexivity|]. split; [|repeat split; vm_compute; reflexivity].
+  assert (S1 : CodecDecSpace.all_space [32]) by (repeat constructor).
+  assert (S9 : CodecDecSpace.all_space [9]) by (repeat constructor).
+  assert (S0 : CodecDecSpace.all_space []) by constructor.
+  unfold ws_tree, ws_inner. apply CodecDecSpaceAll2.sp_obj.
+  apply (CodecDecSpaceAll2.sm_cons true [32] [] [32] [32] [99] _ _ _ _ S1 S0 S1 S1).
+  - apply CodecDecSpaceAll2.sp_obj.
+    apply (CodecDecSpaceAll2.sm_cons true [32] [] [32] [9] [105] _ _ _ _ S1 S0 S1 S9).
+    + apply CodecDecSpaceAll2.sp_num.
+    + apply (CodecDecSpaceAll2.sm_nil false [32] S1).
+  - apply (CodecDecSpaceAll2.sm_cons false [32] [32] [32] [32] [105] _ _ _ _ S1 S1 S1 S1).
+    + apply CodecDecSpaceAll2.sp_num.
+    + apply (CodecDecSpaceAll2.sm_nil false [32] S1).
 Qed.
